@@ -30,6 +30,9 @@ TRUSTED = [
     'harness/impl/c11_maskbits.par: SPPIXMASK bit table loaded instead of the network download (values never reach the outputs)',
     'numpy argsort / np.interp / scipy medfilt exercised, compared with their models; float64 vs exact arithmetic at 1e-9 (ivar) '
     'and 1e-6 (flux)',
+    'round 6: harness/impl/c11_impl.py `lay` builds the memory layouts / storage types (numpy asfortranarray, transposed and '
+    'strided views, negative strides, byte-swapped and float32 copies); the layout runs are compared bit for bit with the '
+    'C-contiguous float64 call, and a differing run is judged in Coq like any other call',
     'Coq stdlib QArith, Lqa (theorems closed under the global context)',
 ]
 ASSUMPTIONS = [
@@ -45,6 +48,10 @@ ASSUMPTIONS = [
     'finalmask/indisp/skyflux keyword paths (andmask/ormask/newdisp/newsky are never returned) are outside the property',
     'the theorems about a constant spectrum and about rescaling are stated for fits that reproduce constants / scale with the '
     'data; that the C10 model fit does so is proved for the certified solver (C11/ProofsFit.v)',
+    'a float32 wavelength grid moves bkptbin = 1.2*binsz by a float32 ulp: judged (to single-precision accuracy) only when the '
+    'number of breakpoints is the same as for the float64 grid; indisp/skyflux are passed only where every exposure has output '
+    'pixels in its range (otherwise the unchanged code raises UnboundLocalError in the newdisp path, outside the property); '
+    'finalmask is not passed (a 2-D finalmask always raises IndexError in the unchanged code)',
     'nord=1 is not exercised: iterfit(requiren=1) indexes past the breakpoints for nord=1 (IndexError inside bspline.py, the '
     'subject of C08-C10)',
 ]
@@ -131,6 +138,40 @@ def out_grid(rng, n, l0, variant):
 VARIANTS = ['same', 'shift', 'wider', 'narrower', 'coarser', 'finer', 'wider', 'shift']
 
 
+def f32(x):
+    import struct
+    return struct.unpack('f', struct.pack('f', x))[0]
+
+
+# memory layouts / storage types of the caller's arrays (harness/impl/c11_impl.py: lay): Fortran-ordered, transposed view of
+# an (npix, nexp) table, every 2nd column of a wider array, every 2nd row of a taller one, negative strides along either
+# axis, big-endian (what astropy.io.fits delivers), float32
+KINDS_2D = ['F', 'T', 'S', 'SR', 'R', 'RR', 'BE', 'f4', 'f4F']
+KINDS_1D = ['S', 'R', 'BE', 'f4']
+
+
+def layout_specs(rng, two_d, k, with_loglam_f4=True, with_disp=False):
+    """k layout assignments, each of inloglam (L), objflux (F), objivar (V), newloglam (N) and the optional indisp/skyflux
+    pair (D) chosen independently; a 2-D input always gets the all-Fortran and a mixed (loglam C, data transposed) one"""
+    specs = []
+    if two_d:
+        specs.append({'L': 'F', 'F': 'F', 'V': 'F', 'N': 'C'})
+        specs.append({'L': 'C', 'F': 'T', 'V': rng.choice(['T', 'F']), 'N': 'C'})
+    kinds = KINDS_2D if two_d else KINDS_1D
+    while len(specs) < k:
+        sp = {a: rng.choice(['C'] + kinds + (['F', 'T'] if two_d else [])) for a in 'LFV'}
+        if sp['L'].startswith('f4') and (not with_loglam_f4 or rng.random() < 0.5):
+            sp['L'] = 'C'
+        if all(v == 'C' for v in sp.values()):
+            continue
+        sp['N'] = rng.choice(['C', 'C', 'S', 'R', 'BE'])
+        if with_disp and rng.random() < 0.3:
+            sp['kw'] = 'disp'
+            sp['D'] = rng.choice(['C'] + [q for q in kinds if not q.startswith('f4')])
+        specs.append(sp)
+    return specs
+
+
 def gen_single(rng, idx):
     n = rng.randint(60, 200)
     l0 = 3.5 + DL * rng.randint(0, 64)
@@ -184,6 +225,17 @@ def gen_single(rng, idx):
             call['ivar_dtype'] = 'float32'
     if not with_ivar and kind == 'noisy':
         call['extras']['scale'] = [1e-17, 1e4, 2.0 ** -56, 1e-8][(idx // 10) % 4]
+    if idx % 4 == 1 and not call.get('flux_dtype'):
+        call['flux'] = [f32(f) for f in call['flux']]
+        call['extras']['layouts'] = layout_specs(rng, False, 2, with_loglam_f4=False)
+    if idx % 7 == 2 and not call.get('flux_dtype'):
+        call['extras']['repeat'] = True
+    if with_ivar and idx % 5 in (1, 3):
+        call['extras']['badflux'] = ['nan', 'inf', '-inf', 'huge'][(idx // 5) % 4]
+    if with_ivar and idx % 5 == 2:
+        call['extras']['badivar'] = ['nan', '-inf', 'neg'][(idx // 5) % 3]
+    if idx % 8 == 5:
+        call['extras']['errstate'] = True
     return call
 
 
@@ -222,9 +274,20 @@ def gen_stack(rng, idx):
         if sum(1 for b in bad if not b) < 102:
             bad = [False] * n
         iv = [0.0 if b else v for v, b in zip(iv, bad)]
+        if idx % 6 == 5:
+            # EXACTLY 101 good pixels in this exposure (the least the built-in variance smoothing supports):
+            # scattered single bad pixels and short runs
+            bad = [False] * n
+            while sum(1 for b in bad if not b) > 101:
+                j = rng.randrange(n)
+                for k in range(j, min(n, j + rng.choice([1, 1, 2, 3]))):
+                    if sum(1 for b in bad if not b) > 101:
+                        bad[k] = True
+            iv = [0.0 if b else (v if v > 0 else base) for v, b in zip([base * rng.choice([1.0, 1.0, 0.5, 2.0]) for _ in range(n)], bad)]
         fx = [a + (0.0 if const else 0.25 * math.sin((i + off) / per * 2 * math.pi)) for i in range(n)]
         if not const and idx % 2:
             fx = [f + (rng.randint(-4, 4) / 8.0) / math.sqrt(v) if v > 0 else f for f, v in zip(fx, iv)]
+        fx = [f32(f) for f in fx]             # float32-representable, so that float32 storage holds the same values
         inl.append(grid)
         flux.append(fx)
         ivar.append(iv)
@@ -236,8 +299,19 @@ def gen_stack(rng, idx):
         new = out_grid(rng, n, l0, variant)
     method = ['traditional', 'mean', 'noconst', 'nothing'][idx % 4]
     extras = {'scale': rng.choice([2.0, 0.5, 4.0])} if idx % 2 == 0 else {}
-    return {'f': 'combine', 'shape': 'stack', 'kind': 'const' if const else 'smooth', 'variant': variant, 'inloglam': inl,
+    extras['layouts'] = layout_specs(rng, True, 5, with_disp=True)
+    if idx % 3 == 0:
+        extras['repeat'] = True
+    if idx % 3 == 1:
+        extras['badflux'] = ['nan', 'inf', '-inf', 'huge'][(idx // 3) % 4]
+    if idx % 4 == 3:
+        extras['errstate'] = True
+    call = {'f': 'combine', 'shape': 'stack', 'kind': 'const' if const else 'smooth', 'variant': variant, 'inloglam': inl,
             'flux': flux, 'ivar': ivar, 'newloglam': new, 'kwargs': {'aesthetics': method}, 'extras': extras, 'level': a}
+    if const or idx % 2 == 0:
+        # noise-free: every exposure samples the same smooth function of wavelength
+        call['truth'] = {'a': a, 'amp': 0.0 if const else 0.25, 'per': per, 'l0': l0}
+    return call
 
 
 def gen_stack_noivar(rng, idx):
@@ -255,9 +329,11 @@ def gen_stack_noivar(rng, idx):
         flux.append([a + 0.25 * math.sin((i + off) / per * 2 * math.pi) + rng.randint(-2, 2) / 64.0 for i in range(n)])
     flux[rng.randrange(nspec)][rng.randint(20, n - 20)] += rng.choice([8.0, 12.0])
     variant = ['same', 'shift'][idx % 2]
+    flux = [[f32(f) for f in row] for row in flux]
     return {'f': 'combine', 'shape': 'stack', 'kind': 'noisy', 'variant': variant, 'inloglam': inl, 'flux': flux, 'ivar': None,
             'newloglam': out_grid(rng, n, l0, variant), 'kwargs': {'aesthetics': ['traditional', 'nothing', 'mean'][idx % 3]},
-            'extras': {'scale': [1e-17, 2.0 ** -56, 1e-8, 1e4][idx % 4]}, 'level': a}
+            'extras': {'scale': [1e-17, 2.0 ** -56, 1e-8, 1e4][idx % 4], 'layouts': layout_specs(rng, True, 4, with_loglam_f4=False, with_disp=True),
+                       'repeat': idx % 2 == 0}, 'level': a}
 
 
 def gen_degenerate(rng, idx):
@@ -376,7 +452,12 @@ def gen_degenerate(rng, idx):
             'where': where, 'inloglam': inl, 'flux': flux, 'ivar': ivar, 'newloglam': new, 'kwargs': kwargs,
             'extras': {'scale': rng.choice([2.0, 0.5, 1e-17, 1e4])} if idx % 3 == 1 else {}, 'level': level}
     if shape == 'stack':
+        call['flux'] = flux = [f32(f) for f in flux]
         call['inloglam'], call['flux'], call['ivar'] = [inl], [flux], [ivar]
+        call['extras']['layouts'] = layout_specs(rng, True, 3, with_loglam_f4=False)
+    elif idx % 9 == 4 and n >= 4:
+        call['flux'] = [f32(f) for f in flux]
+        call['extras']['layouts'] = layout_specs(rng, False, 2, with_loglam_f4=False)
     return call
 
 
@@ -451,8 +532,10 @@ def damp_table(newivar):
         vals = 0.5 * (1.0 + erf((pixels - mingood) / float(d)))
         for i in range(n):
             tbl[Fraction(i - mingood, d)] = Fraction(float(vals[i]))
-    if maxgood < n - 1 and maxgood > 0:
-        d = min(maxgood, 250)
+    if maxgood < n - 1:
+        # maxgood == 0 (only pixel 0 is good): the source divides by min(maxgood, l) = 0.0 (NaN, flagged before Coq) or, with
+        # fixes/C11-damp-only-first-pixel-good.diff, by max(..., 1); the model takes the floor from Generated/Combine1fiber.v
+        d = max(min(maxgood, 250), 1)
         vals = 0.5 * (1.0 + erf((maxgood - pixels) / float(d)))
         for i in range(n):
             tbl[Fraction(maxgood - i, d)] = Fraction(float(vals[i]))
@@ -537,7 +620,7 @@ def correspond(ctx, proof_ok=True):
     if not ok:
         raise RuntimeError('C11/Model.v does not build:\n' + log[-2000:])
     rng = ctx.rng
-    calls = [gen_single(rng, i) for i in range(ctx.n(69, 600))]
+    calls = [gen_single(rng, i) for i in range(ctx.n(60, 600))]
     calls += [gen_const_noivar(rng, i) for i in range(ctx.n(12, 60))]
     calls += [gen_stack(rng, i) for i in range(ctx.n(12, 100))]
     calls += [gen_stack_noivar(rng, i) for i in range(ctx.n(4, 24))]
@@ -570,8 +653,157 @@ def correspond(ctx, proof_ok=True):
         rep.update(extra or {})
         ctx.violation(sig, summary, rep, failing)
 
+    # class C: process-global state, snapshots taken in every (fresh) implementation process around `import pydl` and the calls
+    gs = [o.get('global_state') or {} for o in outs]
+    stats['global_state'] = {'changed_by_import': sorted({k for g in gs for k in g.get('changed_by_import', [])}),
+                             'changed_by_calls': sorted({k for g in gs for k in g.get('changed_by_calls', [])}),
+                             'warnings_filters_before_after_import': gs[0].get('warnings_filters_import'),
+                             'geterr': gs[0].get('geterr')}
+    for what in ('changed_by_import', 'changed_by_calls'):
+        if stats['global_state'][what]:
+            ctx.violation('C11:global-state:%s' % what,
+                          'process-global settings %s were %s (np.geterr now %s): results of later floating-point work in '
+                          'the caller\'s process (NaN/inf handling) depend on them' % (
+                              stats['global_state'][what], 'changed by importing pydl / pydl.pydlspec2d' if 'import' in what
+                              else 'left changed by combine1fiber / preprocess_spectra calls', gs[0].get('geterr')),
+                          {'kind': 'broken-correspondence', 'item': 'global state around import / calls',
+                           'global_state': stats['global_state']}, False)
+
+    def truth_dev(c, r):
+        """noise-free stacks: every exposure samples the same smooth function of wavelength; where the output has variance
+        it must reproduce that function (same accuracy as the same-grid check of single spectra)"""
+        t = c.get('truth')
+        if not t:
+            return None
+        dev = 0.0
+        for lam, f, v in zip(c['newloglam'], r['newflux'], r['newivar']):
+            if v > 0:
+                want = t['a'] + t['amp'] * math.sin(((lam - t['l0']) / DL) / t['per'] * 2 * math.pi)
+                dev = max(dev, abs(f - want))
+        return dev
+
+    def stack_lost(c, r):
+        """stacks whose pixels are all good and noise-free: output pixels well inside the range common to ALL exposures"""
+        if c['shape'] != 'stack' or not c.get('truth') or c.get('ivar') is None or min(flat(c['ivar'])) <= 0:
+            return []
+        n_new = len(c['newloglam'])
+        step_out = abs(c['newloglam'][1] - c['newloglam'][0]) if n_new > 1 else 0.0
+        lo = max(row[3] for row in c['inloglam']) + 3 * step_out
+        hi = min(row[-4] for row in c['inloglam']) - 3 * step_out
+        return [k for k in range(n_new) if lo <= c['newloglam'][k] <= hi and not r['newivar'][k] > 0]
+
+    def stack_direct(c, r, tag=''):
+        var = variant_of(c)
+        dev = truth_dev(c, r)
+        if dev is not None:
+            stats['stack_truth_checks'] = stats.get('stack_truth_checks', 0) + 1
+            stats['stack_truth_max_dev'] = max(stats.get('stack_truth_max_dev', 0.0), dev)
+            if dev > 2e-3:
+                viol('C11:combine1fiber:%s%s:smooth-input-not-reproduced' % (var, tag),
+                     'noise-free exposures of one smooth spectrum: the combined flux is off by %.3g on pixels with positive '
+                     'inverse variance' % dev, c, r)
+        lost = stack_lost(c, r)
+        if lost:
+            viol('C11:combine1fiber:%s%s:good-input-lost' % (var, tag),
+                 'every pixel of every exposure is good and smooth, yet %d output pixels well inside the common range have '
+                 'no inverse variance (first: %d)' % (len(lost), lost[0]), c, r)
+
+    def judge_extras(c, r):
+        var = variant_of(c)
+        rp = r.get('repeat')
+        if rp is not None:
+            stats['repeat_calls'] = stats.get('repeat_calls', 0) + 1
+            if 'err' in rp:
+                viol('C11:combine1fiber:%s:impl=%s' % (var, rp['err']), 'repeated call raised %s: %s' % (rp['err'], rp.get('msg')), c, r)
+            elif not (rp['first_same'] and rp['earlier_result_kept'] and rp['second_same_as_fresh']):
+                viol('C11:combine1fiber:repeat-call-differs',
+                     'calling combine1fiber again with the same array objects after the caller changed objflux in place: %s' % rp, c, r,
+                     extra={'history': ['combine1fiber(L, F, new, objivar=V.copy())', 'F += 1.0; F[..., ::7] -= 0.5',
+                                        'combine1fiber(L, F, new, objivar=V.copy()) must equal the call on fresh copies']})
+        for key, what in (('badflux', 'NaN/inf/huge flux in zero-weight pixels'), ('errstate', "np.errstate(all='raise') around the call")):
+            b = r.get(key)
+            if b is None:
+                continue
+            stats[key + '_calls'] = stats.get(key + '_calls', 0) + 1
+            if 'err' in b:
+                viol('C11:combine1fiber:%s:%s:impl=%s' % (var, key, b['err']), '%s: raised %s: %s' % (what, b['err'], b.get('msg')), c, r)
+            elif not b.get('finite', True):
+                viol('C11:combine1fiber:%s:%s:non-finite' % (var, key), '%s: non-finite output' % what, c, r)
+            elif not b['identical']:
+                viol('C11:combine1fiber:%s:%s:changes-output' % (var, key), '%s changes the output (zero-weight pixels / the '
+                     'error state must not matter)' % what, c, r, failing=False)
+        b = r.get('badivar')
+        if b is not None:
+            stats['badivar_calls'] = stats.get('badivar_calls', 0) + 1
+            if 'err' in b:
+                viol('C11:combine1fiber:%s:badivar:impl=%s' % (var, b['err']), 'NaN/-inf/negative weights: raised %s: %s' % (b['err'], b.get('msg')), c, r)
+            elif not (b['finite'] and b['nonneg']):
+                viol('C11:combine1fiber:%s:badivar:non-finite' % var, 'NaN/-inf/negative weights: non-finite or negative output', c, r)
+            elif c['extras']['badivar'] == 'neg' and not b['identical']:
+                viol('C11:combine1fiber:%s:badivar:changes-output' % var, 'negative weights are not treated like zero weights', c, r, failing=False)
+
+    def judge_layouts(c, r, i):
+        """-> list of (call, record) to be judged in Coq as well"""
+        var = variant_of(c)
+        more = []
+        for one in r.get('layout_runs') or []:
+            sp = one['spec']
+            lb = stats.setdefault('layout_runs', {})
+            for a in 'LFVN':
+                if sp.get(a, 'C') != 'C' and not (a == 'V' and c.get('ivar') is None):
+                    lb['%s:%s' % (a, sp[a])] = lb.get('%s:%s' % (a, sp[a]), 0) + 1
+            if sp.get('kw'):
+                lb['indisp/skyflux:%s' % sp.get('D', 'C')] = lb.get('indisp/skyflux:%s' % sp.get('D', 'C'), 0) + 1
+            c2 = dict(c, extras={}, layout=sp, variant=c['variant'])
+            if 'err' in one:
+                viol('C11:combine1fiber:%s:layout:impl=%s' % (var, one['err']),
+                     'combine1fiber raised %s (%s) for the same values stored as %s; the C-contiguous float64 call works' % (
+                         one['err'], one.get('msg'), sp), c2, one)
+                continue
+            if one['args_mutated'] or one['result_aliases_arg']:
+                viol('C11:combine1fiber:argument-modified', 'combine1fiber modified a caller-owned array (%s) or returned storage '
+                     'shared with an argument (layout %s)' % (one['args_mutated'], sp), c2, one)
+            if one['identical']:
+                stats['layout_identical'] = stats.get('layout_identical', 0) + 1
+                continue
+            rv, ref = one['record'], one['ref']
+            f4 = [a for a in 'LFV' if str(sp.get(a, '')).startswith('f4')]
+            if f4 and one['finite'] and len(rv['newflux']) == len(ref['newflux']):
+                # single-precision storage: same zero pattern, values to single-precision accuracy; a float32 wavelength grid
+                # also moves bkptbin = 1.2*binsz by one float32 ulp: not judged when that changes the number of breakpoints
+                if 'L' in f4 and not one['same_knots']:
+                    stats['layout_f4_knot_flip'] = stats.get('layout_f4_knot_flip', 0) + 1
+                    continue
+                ftol, itol = (2e-3, 1e-6) if 'L' in f4 else (1e-5, 1e-9)
+                if close_vec(rv['newflux'], ref['newflux'], ftol) and close_vec(rv['newivar'], ref['newivar'], itol) and \
+                        [v == 0 for v in rv['newivar']] == [v == 0 for v in ref['newivar']]:
+                    stats['layout_f4_close'] = stats.get('layout_f4_close', 0) + 1
+                    continue
+            # the same values, another layout, a different answer
+            nd = sum(1 for a, b in zip(rv['newivar'], ref['newivar']) if a != b)
+            viol('C11:combine1fiber:%s:layout-dependent' % var,
+                 'the same values stored as %s give a different answer than the C-contiguous float64 arrays (%d of %d output '
+                 'inverse variances differ)' % (sp, nd, len(ref['newivar'])), c2, rv, failing=False,
+                 extra={'reference_output': ref})
+            if not one['finite'] or not finite_list(rv['newflux']) or not finite_list(rv['newivar']):
+                viol('C11:combine1fiber:%s:layout:non-finite' % var, 'non-finite output for layout %s' % sp, c2, rv)
+                continue
+            if rv['len_flux'] != len(c['newloglam']) or rv['len_ivar'] != len(c['newloglam']) or 'glue_error' in rv:
+                if 'glue_error' not in rv:
+                    viol('C11:combine1fiber:wrong-length', 'output length differs from the output grid (layout %s)' % sp, c2, rv)
+                else:
+                    stack_direct(c2, rv, ':layout')
+                    # recorded fits cannot be attached to the groups: only the specification is judged, with every
+                    # positive-weight pixel counted as passing (the most permissive reading)
+                    more.append((c2, dict(rv, no_model=True, fullcomb=[True] * len(rv['fullcomb']))))
+                continue
+            stack_direct(c2, rv, ':layout')
+            more.append((c2, rv))
+        return more
+
     terms, owners = [], []
-    for i, (c, r) in enumerate(zip(calls, results)):
+    layout_cases = []
+    for i, (c, r) in enumerate(list(zip(calls, results))):
         if c['f'] == 'probe-empty':
             stats['empty_output_grid'] = r.get('outcome')       # observed, not judged
             continue
@@ -722,6 +954,12 @@ def correspond(ctx, proof_ok=True):
                          extra={'meaning': 'scaling flux by c and inverse variance by 1/c^2 must scale newflux by c and newivar by 1/c^2'})
         if c['kwargs']['aesthetics'] == 'damp':
             stats['damp'] += 1          # the taper enters the model as a table of scipy erf values (CDamp)
+        if c['shape'] == 'stack':
+            stack_direct(c, r)
+        judge_extras(c, r)
+        for c2, rv in judge_layouts(c, r, i)[:2]:
+            if len(layout_cases) < 6:            # a differing layout run: its output goes through Coq like any call
+                layout_cases.append((c2, rv))
         terms.append(case_term(c, r))
         owners.append(i)
         if chain_eligible(c, r) and c['kwargs']['aesthetics'] != 'damp':
@@ -732,17 +970,32 @@ def correspond(ctx, proof_ok=True):
             terms.append(case_term(c, r, mode='chain'))
             owners.append(i)
 
+    for c2, rv in layout_cases:
+        calls.append(c2)
+        results.append(rv)
+        terms.append(case_term(c2, {k: v for k, v in rv.items() if k not in ('pre_ivar', 'pre_flux')}))
+        owners.append(len(calls) - 1)
+    stats['layout_runs_judged_in_coq'] = len(layout_cases)
     # big calls one per coqc process, the small (degenerate) ones twelve per process
     cc = C.CoqCases(ctx.work, HEADER, 'run_cases', shard=1)
-    cc_small = C.CoqCases(ctx.work, HEADER, 'run_cases', shard=12)
+    cc_small = C.CoqCases(ctx.work, HEADER, 'run_cases', shard=6)
     small = [j for j, i in enumerate(owners) if len(flat(calls[i]['inloglam'])) <= 48 and len(calls[i]['newloglam']) <= 100]
-    big = [j for j in range(len(terms)) if j not in set(small)]
+    sset_ = set(small)
+    big = [j for j in range(len(terms)) if j not in sset_]
+    # longest first (the pool takes the files in order): cost ~ input pixels x output pixels
+    big.sort(key=lambda j: -len(flat(calls[owners[j]]['inloglam'])) * len(calls[owners[j]]['newloglam']))
+    small.sort(key=lambda j: -len(terms[j]))
+    nsh = max(1, -(-len(small) // 6))
+    small = [j for k in range(nsh) for j in small[k::nsh]]          # spread the long ones over the shards
     verdicts = [None] * len(terms)
     for idxs, runner, tag in ((big, cc, 'cases'), (small, cc_small, 'small')):
         if idxs:
             for j, v in zip(idxs, runner.run([terms[j] for j in idxs], tag=tag)):
                 verdicts[j] = v
     cc.coq_seconds += cc_small.coq_seconds
+    if os.environ.get('C11_KEEP'):               # development aid: keep the case files (per-file timing)
+        import shutil
+        shutil.copytree(ctx.work, os.environ['C11_KEEP'], dirs_exist_ok=True)
     ctx.coverage.update({
         'evaluations': sum(len(calls[i]['newloglam']) for i in owners),
         'distinct_nontrivial': len(set(terms)),
@@ -763,7 +1016,11 @@ def correspond(ctx, proof_ok=True):
         if v == 0:
             continue
         c, r = calls[i], results[i]
-        sig = 'C11:combine1fiber:%s:%s' % (variant_of(c), 'property' if v & 2 else 'model')
+        if r.get('no_model'):
+            v &= 2          # the recorded fits could not be attached to the groups: only the specification is judged
+            if v == 0:
+                continue
+        sig = 'C11:combine1fiber:%s%s:%s' % (variant_of(c), ':layout' if c.get('layout') else '', 'property' if v & 2 else 'model')
         if sig in seen:
             continue
         diag = cc.show('diagnose %s' % t)[-300:]
